@@ -121,7 +121,7 @@ RESTS = {
                   "`Int.emod_eq_of_lt`",
     "add_neg_cancel": "`add_neg_cancel_right`",
     "ninv_mul": "`inv_mul_cancel₀`; " + PRIME_N,
-    "smul_gzero": "`smul_zero` (Mathlib, `k • 0 = 0`)",
+    "smul_gzero": "`zsmul_zero` (Mathlib; `smul_zero` for the `ℤ`-action of an additive group)",
 }
 # lemmas the contract files tag `{lean: ASSUMED ...}`: intentionally without a theorem (and never `ok` in the stamp).
 # Currently none (`iso_hom_chord` was the only one; it is proved in SecpSMT3.lean).
